@@ -29,6 +29,7 @@ import QV.Proofs.WriterAbsStep
 import QV.Proofs.WriterWalk
 import QV.Proofs.WriterSegment
 import QV.Proofs.WriterCheckSession
+import QV.Proofs.WriterSessions
 
 namespace QV.C12
 open QV QV.Writer QV.ServerSafety
@@ -62,8 +63,26 @@ open QV QV.Writer QV.ServerSafety
   writer's pointer log; that the pointers the decoder finds are exactly the logged ones is not
   proved). Everything else `checkSession` does is discharged: the walk over the status strings with
   `absOk` and `justified` (`C12_failures_justified`), the getters, header, questions and records by
-  item mode, OPT, TSIG, size. Open: the audit premise, and sessions with `clear_rrs` (the walk then
-  checks each segment against the message finished before the call). (d) is stated for limits of at
+  item mode, OPT, TSIG, size.
+  The audit premise is proved (`QV.Proofs.WriterAudit`, `C12_pointer_audit_passes_partial`), in four
+  layers: (1) every name write records only label starts of the name it leaves at the old cursor
+  (`PhysLab`, `NameSpec.ok`) and writes the name literally in `Disabled` mode; (2) the layout
+  invariant `CLay` carries, for all call sequences, that every recorded label start is the first
+  octet of a label of a name of the chains — a QNAME below `rr_start`, an owner or a name inside
+  RDATA above (`QLab`, `RLab`; `RdAt` lists the name positions of each RDATA) — and that a name
+  written in `Disabled` mode ends with its root label (`NameIs`); `finish` keeps this for the OPT
+  and TSIG records (`Labs` in `FinLayC`); (3) the decoder's name occurrences `d.names` are, in
+  order, the names at the name positions of the chains of the final buffer, each described as the
+  physical walk finds it there (`FinAudit` in `finish_refines`, `physical_inv`, `chunk_unique`);
+  (4) the induction over `auditPointers.go` (`audit_go`: a pointer's target is a recorded label
+  start below the name — `item_ptr_target` —, hence a label of an earlier occurrence; no pointer
+  in `Disabled` items and in uncompressible RDATA). So `C12_full_without_clear_rrs_partial` is
+  `C12_full` word for word for sessions without `clear_rrs`, with no premise.
+  Sessions with `clear_rrs` are covered too: `C12_full_all_sessions_partial` is `C12_full` for every
+  session, with the MAC-size hypothesis asked at every prefix of the calls instead of only at the end.
+  STILL OPEN of `C12_full` as a single statement: that last difference — that a signing TSIG
+  configuration keeps its algorithm for the rest of the session (so that the MAC size known for the
+  final state is the size at every earlier `finish`). (d) is stated for limits of at
   most 65535 (RDLENGTH is a 16-bit field; the writer itself accepts larger buffers). The driver
   evaluates `checkSession` itself on 100 % of the generated sessions (model column and, on the
   implementation's octets, spec column of `waudit`). -/
@@ -650,8 +669,10 @@ theorem C12_final_check_clauses_partial (macFn : Tsig → List UInt8 → List UI
        ∃ ds tl, d.msg.additionals = ds ++ tl ∧
          Spec.Message.recsEq (rmodes.drop (ex.1.length + ex.2.1.length) ++ [aF.mode, aF.mode]) ex.2.2 ds = true ∧
          All2 (RecordIs ((run { w := { s0 with mode := mode } } ops).1.w.mode ≠ .standard))
-           (tsigRecs (run { w := { s0 with mode := mode } } ops).1.w.tsig mac) tl) :=
-  segment_from_new macFn hmac buf limit s0 hnew hlim mode ops ht hb hr hv hno mac'
+           (tsigRecs (run { w := { s0 with mode := mode } } ops).1.w.tsig mac) tl) := by
+  obtain ⟨m, mac, d, aF, h1, h2, h3, h4, h5, h6, h7, h8, _, h9⟩ :=
+    segment_from_new macFn hmac buf limit s0 hnew hlim mode ops ht hb hr hv hno mac'
+  exact ⟨m, mac, d, aF, h1, h2, h3, h4, h5, h6, h7, h8, h9⟩
 
 /-! ### the walk of a segment reduces to the pointer audit
 
@@ -679,8 +700,10 @@ theorem C12_segment_reduces_to_pointer_audit_partial (macFn : Tsig → List UInt
           { mode := Driver.toSpecMode mode, buflen := buf.size, limit := min limit buf.size }
           (ops.map Driver.toSpecOp)
           (obs { w := { s0 with mode := mode } } ops ++ ["ok"]) [m] (some d) mac' =
-        Spec.Message.auditPointers d aF.itemModes.reverse aF.mode :=
-  segment_reduces_to_audit macFn hmac buf limit s0 hnew hlim mode ops ht hb hr hv hno hml mac' hmac'
+        Spec.Message.auditPointers d aF.itemModes.reverse aF.mode := by
+  obtain ⟨m, mac, d, aF, h1, h2, h3, _⟩ :=
+    segment_reduces_to_audit macFn hmac buf limit s0 hnew hlim mode ops ht hb hr hv hno hml mac' hmac'
+  exact ⟨m, mac, d, aF, h1, h2, h3⟩
 
 /-! ### `C12_full`, for one segment, up to the pointer audit
 
@@ -709,6 +732,76 @@ theorem C12_full_one_segment_modulo_audit_partial (buf : Bytes) (limit : Nat) (m
           (Driver.runModel { w := { s with mode := mode } } ops mac true).mac = "ok") :=
   checkSession_one_segment buf limit mode s ops mac hnew hr ht hlim hv hmac hno hsz
 
+/-! ### `C12_full` for sessions without `clear_rrs`
+
+  `C12_full_without_clear_rrs_partial`: the statement of `C12_full` (as corrected above), word for
+  word, with one more hypothesis: no call is `clear_rrs`. No premise about the pointer audit is left:
+  `auditPointers` of the decoded message returns `ok` (`QV.Proofs.WriterAudit`): every pointer the
+  decoder finds ends a name of the chains, its target is a label start the writer recorded, below
+  that name, hence the first octet of a label of an earlier name (every recorded label start is one,
+  for all call sequences: `QLab`, `RLab` in the layout invariant); names inside RDATA that must not
+  be compressed and names written in `Disabled` mode contain no pointer. The restriction (the name
+  ends in `_partial`): sessions with `clear_rrs`, where `checkSession` also judges the message
+  finished before each `clear_rrs`, are not covered. -/
+theorem C12_full_without_clear_rrs_partial (buf : Bytes) (limit : Nat) (mode : CMode) (s : State)
+    (ops : List Op) (mac : Option (List UInt8)) (hnew : Writer.new buf limit = .ok s)
+    (hr : Respects { w := { s with mode := mode } } ops) (ht : ∀ op ∈ ops, ApiTyped op) (hlim : limit ≤ 65535)
+    (hv : ∀ v, Op.setLimit v ∈ ops → v ≤ 65535) (hmac : MacLenOK (fun _ _ => mac.getD []))
+    (hsz : ∀ ts, (run { w := { s with mode := mode } } ops).1.w.tsig = some ts → isUnsigned ts.mode = false →
+      (mac.getD []).length = (toATsig ts).macLen)
+    (hno : ∀ op ∈ ops, op ≠ .clearRrs) :
+    let r := Driver.runModel { w := { s with mode := mode } } ops mac true
+    ∃ m, r.msg = some m ∧
+      Spec.Message.checkSession buf.size limit (Driver.toSpecMode mode) (ops.map Driver.toSpecOp)
+        r.statuses (r.pre ++ [m]) r.mac = "ok" := by
+  intro r
+  obtain ⟨m, _, _, hm, _, _⟩ := checkSession_one_segment buf limit mode s ops mac hnew hr ht hlim hv hmac hno hsz
+  refine ⟨m, hm, ?_⟩
+  have h := checkSession_no_clear buf limit mode s ops mac hnew hr ht hlim hv hmac hno hsz
+  rw [hm] at h
+  exact h
+
+/-! ### `C12_full` for all sessions, `clear_rrs` included
+
+  `C12_full_all_sessions_partial`: the statement of `C12_full` (as corrected above) for every
+  session — any number of `clear_rrs` calls; at each of them `checkSession` judges the message
+  finished just before the call against the abstract state and continues from the questions on the
+  next message (`QV.Proofs.WriterSessions`: `walk_sessions`, induction over the segments; the
+  observer of the driver records exactly those messages: `go_all`). The one difference to `C12_full`
+  (hence `_partial`): the MAC-size hypothesis is asked at every point of the session where a signing
+  TSIG mode is configured (`hsz` for every prefix of the calls), not only for the final state — the
+  two agree because a TSIG configuration, once set, keeps its algorithm (`set_tsig` fails with
+  `AlreadyTsig`, `update_time_signed` changes the time only, the templates keep the algorithm);
+  that persistence is not proved here. -/
+theorem C12_full_all_sessions_partial (buf : Bytes) (limit : Nat) (mode : CMode) (s : State)
+    (ops : List Op) (mac : Option (List UInt8)) (hnew : Writer.new buf limit = .ok s)
+    (hr : Respects { w := { s with mode := mode } } ops) (ht : ∀ op ∈ ops, ApiTyped op) (hlim : limit ≤ 65535)
+    (hv : ∀ v, Op.setLimit v ∈ ops → v ≤ 65535) (hmac : MacLenOK (fun _ _ => mac.getD []))
+    (hsz : ∀ o1 o2, ops = o1 ++ o2 → ∀ ts, (run { w := { s with mode := mode } } o1).1.w.tsig = some ts →
+      isUnsigned ts.mode = false → (mac.getD []).length = (toATsig ts).macLen) :
+    let r := Driver.runModel { w := { s with mode := mode } } ops mac true
+    ∃ m, r.msg = some m ∧
+      Spec.Message.checkSession buf.size limit (Driver.toSpecMode mode) (ops.map Driver.toSpecOp)
+        r.statuses (r.pre ++ [m]) r.mac = "ok" :=
+  checkSession_all buf limit mode s ops mac hnew hr ht hlim hv hmac hsz
+
+/-- the pointer audit of the specification, alone: it passes on the message of every session
+    without `clear_rrs` (typed calls, limits of at most 65535) — in every compression mode, with
+    EDNS and TSIG -/
+theorem C12_pointer_audit_passes_partial (macFn : Tsig → List UInt8 → List UInt8) (hmac : MacLenOK macFn)
+    (buf : Bytes) (limit : Nat) (s0 : State) (hnew : Writer.new buf limit = .ok s0) (hlim : limit ≤ 65535)
+    (mode : CMode) (ops : List Op) (ht : ∀ op ∈ ops, op.Typed) (hb : ∀ op ∈ ops, ApiBounds op)
+    (hr : Respects { w := { s0 with mode := mode } } ops) (hv : ∀ v, Op.setLimit v ∈ ops → v ≤ 65535)
+    (hno : ∀ op ∈ ops, op ≠ .clearRrs ∧ NonEmptySet op) :
+    ∃ (m : Bytes) (mac : Option (List UInt8)) (d : Spec.Message.Decoded) (aF : Spec.Message.AState),
+      finish (run { w := { s0 with mode := mode } } ops).1.w macFn = .ok (m, mac) ∧
+      Spec.Message.specDecodeMsg m = some d ∧
+      aF.mode = Driver.toSpecMode (run { w := { s0 with mode := mode } } ops).1.w.mode ∧
+      Spec.Message.auditPointers d aF.itemModes.reverse aF.mode = .ok () := by
+  obtain ⟨m, mac, d, aF, hf, hd, _, _, _, _, _, hmode, haud, _⟩ :=
+    segment_from_new macFn hmac buf limit s0 hnew hlim mode ops ht hb hr hv hno none
+  exact ⟨m, mac, d, aF, hf, hd, hmode, haud⟩
+
 /-! non-vacuity: a `CasePreserving` session that respects the contract, whose calls all succeed, and
     that emits two pointers (owner = QNAME; the CNAME target shares a suffix with it) — all
     hypotheses of `C12_refinement_without_standard_mode` hold for it, and the message has a question
@@ -734,5 +827,32 @@ example : Writer.new (Array.replicate 64 0) 64 = .ok nvS ∧
     · exact ⟨hwf, by decide, by decide, by decide⟩
   · intro m hm
     simp [nvOps] at hm
+
+/-! non-vacuity of `C12_full_without_clear_rrs_partial`: the same session (two pointers emitted)
+    satisfies all its hypotheses -/
+example : Writer.new (Array.replicate 64 0) 64 = .ok nvS ∧
+    Respects { w := { nvS with mode := .casePreserving } } nvOps ∧ (∀ op ∈ nvOps, ApiTyped op) ∧
+    (64 : Nat) ≤ 65535 ∧ (∀ v, Op.setLimit v ∈ nvOps → v ≤ 65535) ∧
+    MacLenOK (fun _ _ => (none : Option (List UInt8)).getD []) ∧
+    (∀ ts, (run { w := { nvS with mode := .casePreserving } } nvOps).1.w.tsig = some ts →
+      isUnsigned ts.mode = false → ((none : Option (List UInt8)).getD []).length = (toATsig ts).macLen) ∧
+    (∀ op ∈ nvOps, op ≠ .clearRrs) := by
+  have hwf : WName.WF ⟨[[119, 119, 119], [97]]⟩ := by decide
+  refine ⟨rfl, ⟨hwf, ⟨hwf, trivial⟩, trivial⟩, ?_, by decide, ?_, ?_, ?_, ?_⟩
+  · intro op hop
+    simp only [nvOps, List.mem_cons, List.mem_nil_iff, or_false] at hop
+    rcases hop with rfl | rfl
+    · exact ⟨⟨hwf, by decide, by decide⟩, trivial, trivial⟩
+    · exact ⟨⟨hwf, by decide, by decide, by decide⟩, trivial, trivial⟩
+  · intro v hv; simp [nvOps] at hv
+  · intro ts msg
+    simp only [Option.getD_none, List.length_nil]
+    exact Nat.zero_le _
+  · intro ts hts
+    have : (run { w := { nvS with mode := .casePreserving } } nvOps).1.w.tsig = none := by decide +kernel
+    rw [this] at hts; cases hts
+  · intro op hop
+    simp only [nvOps, List.mem_cons, List.mem_nil_iff, or_false] at hop
+    rcases hop with rfl | rfl <;> exact fun h => by cases h
 
 end QV.C12
